@@ -7,4 +7,7 @@ PROPS = {
     "C19": dict(pkg="c19", run="^TestC19$", shards=8, timeout_quick=300, timeout_thorough=1500, net=119),
     "C16": dict(pkg="c16", run="^TestC16$", shards=8, timeout_quick=300, timeout_thorough=1500, net=116),
     "C01": dict(pkg="c01", run="^TestC01$", shards=8, timeout_quick=600, timeout_thorough=2400, net=101),
+    "C04": dict(pkg="c04", run="^TestC04$", shards=8, timeout_quick=600, timeout_thorough=2400, net=104),
+    "C05": dict(pkg="c05", run="^TestC05$", shards=8, timeout_quick=600, timeout_thorough=2400, net=105),
+    "C08": dict(pkg="c08", run="^TestC08$", shards=8, timeout_quick=600, timeout_thorough=2400, net=108),
 }
